@@ -672,7 +672,7 @@ func compareFrames(expected, decoded []mSeries, spec codecSpec) (class, what str
 			return out
 		}
 		class, what = compareNormal(single(es), single(ds), spec)
-		orderOnly := class == ""
+		orderOnly := class == "" || sameUpToOrder(es, ds, typeOK)
 		if !orderOnly && len(es) <= 24 {
 			if ok, _ := mergeable(es, ds, typeOK); ok {
 				orderOnly = true
@@ -688,6 +688,48 @@ func compareFrames(expected, decoded []mSeries, spec codecSpec) (class, what str
 		return class, what
 	}
 	return "", ""
+}
+
+// sameUpToOrder: do the two lists hold the same series once the order inside each list is
+// forgotten (and contiguous runs are merged)? Only used to NAME a difference that the
+// order-preserving comparison has already established.
+func sameUpToOrder(es, ds []mSeries, typeOK func(e, d string) bool) bool {
+	less := func(a, b mSeries) bool {
+		if a.Align != b.Align {
+			return a.Align < b.Align
+		}
+		if a.N != b.N {
+			return a.N < b.N
+		}
+		if c := bytes.Compare(a.Data, b.Data); c != 0 {
+			return c < 0
+		}
+		if a.Start != b.Start {
+			return a.Start < b.Start
+		}
+		return a.End < b.End
+	}
+	canon := func(ss []mSeries) []mSeries {
+		c := append([]mSeries{}, ss...)
+		for i := range c {
+			c[i].Key = 0
+		}
+		sort.SliceStable(c, func(i, j int) bool { return less(c[i], c[j]) })
+		m := normalise(c)[0]
+		sort.SliceStable(m, func(i, j int) bool { return less(m[i], m[j]) })
+		return m
+	}
+	ce, cd := canon(es), canon(ds)
+	if len(ce) != len(cd) {
+		return false
+	}
+	for i := range ce {
+		e, d := ce[i], cd[i]
+		if e.Align != d.Align || e.N != d.N || e.Start != d.Start || e.End != d.End || !typeOK(e.DT, d.DT) || !bytes.Equal(e.Data, d.Data) {
+			return false
+		}
+	}
+	return true
 }
 
 func brief(ss []mSeries) string {
